@@ -285,6 +285,74 @@ def gen_shared_filter_query(rng, world, view):
     return q
 
 
+def _largest_amount(view, u, rc):
+    """the largest amount of rc provider u can take right now (0: none)"""
+    f = view.inv[u].get(rc)
+    if f is None:
+        return 0
+    used = view.used.get((u, rc), 0)
+    cap = int((f['total'] - f['reserved']) * f['allocation_ratio']) - used
+    a = min(cap, f['max_unit'])
+    a -= a % f['step_size']
+    while a >= max(f['min_unit'], 1):
+        if view.room(u, rc, a, 'must'):
+            return a
+        a -= f['step_size']
+    return 0
+
+
+def gen_disjoint_classes_query(rng, world, view):
+    """an unsuffixed group of three or more classes whose FIRST classes can
+    only be had from different trees (amounts chosen so), while a later one
+    is available: no tree satisfies the group, so nothing - or only what
+    other trees offer for all of it - may come back"""
+    v = rng.choice([10, 12, 17, 25, 29, 34, 36, 39, 39])
+    q = {'version': v, 'groups': {'': new_group()}, 'group_policy': None,
+         'root_required': set(), 'root_forbidden': set(),
+         'same_subtree': [], 'limit': None}
+    best = {}        # class -> {root: largest amount in that tree}
+    for r in view.roots:
+        for u in view.usable(r):
+            for rc in view.inv[u]:
+                a = _largest_amount(view, u, rc)
+                if a:
+                    best.setdefault(rc, {})
+                    best[rc][r] = max(best[rc].get(r, 0), a)
+    # (class, amount, set of roots that can supply that amount)
+    offers = []
+    for rc, per in sorted(best.items()):
+        for a in sorted(set(per.values())):
+            offers.append((rc, a, frozenset(r for r, x in per.items()
+                                            if x >= a)))
+    pairs = [(x, y) for x in offers for y in offers
+             if x[0] != y[0] and not (x[2] & y[2])]
+    if not pairs:
+        q['groups']['']['resources'] = gen_resources(rng, world.classes, 3)
+        return q
+    x, y = rng.choice(pairs)
+    rest = [o for o in offers if o[0] not in (x[0], y[0])]
+    items = [(x[0], x[1]), (y[0], y[1])]
+    if rest:
+        z = rng.choice(rest)
+        items.append((z[0], min(z[1], rng.choice([1, 2, z[1]])) or z[1]))
+        if rng.random() < 0.3:
+            more = [o for o in rest if o[0] != z[0]]
+            if more:
+                w_ = rng.choice(more)
+                items.append((w_[0], w_[1]))
+    else:
+        others = [c for c in world.classes if c not in (x[0], y[0])]
+        if others:
+            items.append((rng.choice(others), 1))
+    q['groups']['']['resources'] = dict(items)     # order kept: x, y first
+    if v >= 25 and rng.random() < 0.2:
+        g = new_group()
+        g['resources'] = gen_resources(rng, world.classes, 1)
+        q['groups']['1'] = g
+        q['group_policy'] = 'none'
+    return q
+
+
 def gen_subtree_query(rng, world, view):
     """three suffixed groups aimed at a provider X and two providers Y, Z
     below it in DIFFERENT branches, with a wide same_subtree constraint over
